@@ -593,6 +593,7 @@ func (fr *Frame) builtin(in ssa.Instruction, b *ssa.Builtin, c *ssa.CallCommon, 
 		case *types.Map:
 			l := fc.define(fr.prefix+"maplen", "Int", ite(eq(a.t, nilPtr), "0", app("select", fc.comp(st, "ML", "(Array Ptr Int)"), a.t)))
 			fc.assume("true", app(">=", l, "0"))
+			fr.extMapLenEmpty(u, a.t, l, st) // ext_mapiter.go: a map of length 0 has no entry
 			return []SV{{t: l, typ: intT}}
 		}
 		fc.unsupported("len of " + c.Args[0].Type().String())
